@@ -11,6 +11,7 @@ RULE = ("layout trees of depth 1-3 (several functionaries of a step delegating, 
         "sublayout; distinct by description.")
 ASSUMPTIONS = ["signatures present are non-malleable (ground-truth table)",
                "recursion depth of the model is bounded by fuel 8 (generated trees have depth <= 3)"]
+SHARED_DEFECTS = [None, "sublinks_missing", "sublinks_in_parent_dir", "sublink_tampered", "sublink_unauthorised"]
 DEFECTS = [None, None, "wrong_signer", "expired", "edited", "sublinks_missing", "sublinks_in_parent_dir",
            "sublink_tampered", "subrule", "subinspection_fail"]
 
@@ -24,7 +25,72 @@ def find_spec(ch, path):
     return cur, cur.steps[si], cur.steps[si]["links"][li]
 
 
+def clone_sub(sub, owner):
+    """Same layout content, signed by another functionary, with its own (separately specified) sub-links."""
+    import copy
+    c = copy.copy(sub)
+    c.owners = [owner]
+    c.steps = []
+    for s in sub.steps:
+        s2 = dict(s)
+        s2["links"] = [dict(l) for l in s["links"]]
+        c.steps.append(s2)
+    return c
+
+
+def gen_shared_case(rng, root):
+    """Two functionaries of one step (threshold 2) hand in the SAME sublayout content; the one listed
+    later may have broken sub-links. Each delegation must be verified on its own."""
+    pool = W.pool()
+    ch = scen.gen_chain(rng, root, n_steps=rng.choice([1, 2]), n_insp=rng.choice([0, 1]), thresholds=(1,), max_funcs=1)
+    si = rng.randrange(len(ch.steps))
+    st = ch.steps[si]
+    k1, k2 = rng.sample([k for k in pool if k not in ch.owners], 2)
+    first = {p: b"x" for p in st["materials"]}
+    sub1 = scen.gen_chain(rng, root, n_steps=rng.choice([1, 2]), n_insp=0, thresholds=(1,), max_funcs=1, owners=[k1],
+                          prefix=st["name"] + "sh", fmt_mode="mixed")
+    # make the sub chain's boundary artifacts those of the parent step
+    sub1.steps[0]["materials"] = st["materials"]
+    for ls in sub1.steps[0]["links"]:
+        ls["materials"] = st["materials"]
+    sub1.steps[-1]["products"] = st["products"]
+    for ls in sub1.steps[-1]["links"]:
+        ls["products"] = st["products"]
+    sub1.closed = False
+    for s_ in sub1.steps:
+        s_["rules"] = ([["ALLOW", "*"]], [["ALLOW", "*"]])
+    sub2 = clone_sub(sub1, k2)
+    fmt = rng.choice(["metablock", "dsse"])
+    st["keys"] = [k1, k2]
+    st["pubkeys"] = [k1.keyid, k2.keyid]
+    st["threshold"] = 2
+    st["links"] = [scen.link_spec(k1, fmt, st["name"], st["materials"], st["products"], sub=sub1),
+                   scen.link_spec(k2, fmt, st["name"], st["materials"], st["products"], sub=sub2)]
+    for k in (k1, k2):
+        ch.layout_keys[k.keyid] = k.pub
+    defect = rng.choice(SHARED_DEFECTS)
+    which = rng.choice(["second", "second", "first"])
+    target = sub2 if which == "second" else sub1
+    if defect == "sublinks_missing":
+        rng.choice(target.steps)["links"] = []
+    elif defect == "sublinks_in_parent_dir":
+        target.links_dir_override = "links"
+    elif defect == "sublink_tampered":
+        for ls in rng.choice(target.steps)["links"]:
+            ls["tamper"] = rng.choice(["sig", "content_fixed", "unsigned"])
+    elif defect == "sublink_unauthorised":
+        tstep = rng.choice(target.steps)
+        stranger = [k for k in pool if k not in ch.owners and k not in (k1, k2) and k not in tstep["keys"]][0]
+        for ls in tstep["links"]:
+            ls["signer"] = stranger
+    desc = {"depth": 1, "n_sublayouts": 2, "defect": defect and "shared:" + defect, "shared_sublayout": True,
+            "bad_functionary": which if defect else None, "expected_accept": defect is None}
+    return ch, desc
+
+
 def gen_case(rng, root):
+    if rng.random() < 0.3:
+        return gen_shared_case(rng, root)
     depth = rng.choice([1, 2, 2, 3])
     for _ in range(20):
         ch = scen.gen_chain(rng, root, n_steps=rng.choice([1, 2, 3]), n_insp=rng.choice([0, 1]),
